@@ -14,6 +14,8 @@
       sender (`runWait none`), and no fail message can abort that wait.
       `left_out_outlasts_coordinator_timeout`: that wait is limited by TssTimeout — silences longer than
       CoordinatorTimeout change nothing (time-outs as events `TEv.quiet`; contrast `shorter_limit_expires`).
+      `silent_coordinator_times_out`: with an explicit clock (`CEv.tick`), messages from peers other than the coordinator
+      neither re-arm nor stop the coordinator time-out.
    4. `unrecognised_failure_ends_session`, `non_retryable_never_retried`.
    5. `second_attempt_clean`: the composition (classification → election → follow / announce) for the intended election
       rule; excluded point `self_culprit_point`. `asFound_never_recognises_pool_errors`: the defect as found.
@@ -285,6 +287,61 @@ theorem shorter_limit_expires :
     (runTimed (none : Option Nat) none .coord [TEv.quiet .coord, .msg (Ev.start 2 (some 1))]).timedOut = true ∧
     (runTimed (none : Option Nat) none .coord [TEv.quiet .coord, .msg (Ev.start 2 (some 1))]).w.runs = [] ∧
     (runLeftOut [TEv.quiet .tss, .msg (Ev.start (2 : Nat) (some 1))]).timedOut = true := by decide
+
+/-- **C11 (an unresponsive coordinator is recognised in spite of foreign traffic).** While nothing arrives from the
+    coordinator itself, initiate / start / fail messages from any other peer — however many, however often — neither
+    re-arm nor stop the coordinator time-out: after `limit` units of time the relayer has classified its coordinator as
+    unresponsive (and has answered, run and aborted nothing). -/
+theorem silent_coordinator_times_out (c : α) (limit : Nat) (hpos : 1 ≤ limit) (tr : List (CEv α))
+    (hsil : ∀ e, CEv.msg e ∈ tr → e.src ≠ c) (hlim : limit ≤ ticksOf tr) :
+    (runClock c limit tr).timedOut = true ∧ (runClock c limit tr).w = initW := by
+  have key : ∀ (tr : List (CEv α)) (s : CSt α), (∀ e, CEv.msg e ∈ tr → e.src ≠ c) → s.w = initW →
+      (s.timedOut = true ∨ (s.elapsed < limit ∧ limit ≤ s.elapsed + ticksOf tr)) →
+      (tr.foldl (stepClock c limit) s).timedOut = true ∧ (tr.foldl (stepClock c limit) s).w = initW := by
+    intro tr
+    induction tr with
+    | nil =>
+      intro s _ hw h
+      rcases h with h | h
+      · exact ⟨h, hw⟩
+      · simp only [ticksOf] at h; omega
+    | cons x xs ih =>
+      intro s hs hw h
+      have hs' : ∀ e, CEv.msg e ∈ xs → e.src ≠ c := fun e he => hs e (List.mem_cons_of_mem _ he)
+      simp only [List.foldl_cons]
+      by_cases ht : s.timedOut = true
+      · have : stepClock c limit s x = s := by cases x <;> simp [stepClock, ht]
+        rw [this]; exact ih s hs' hw (Or.inl ht)
+      · have hnt : s.timedOut = false := by simpa using ht
+        rcases h with h | h
+        · exact absurd h ht
+        · cases x with
+          | tick =>
+            have hph : s.w.phase = .waiting := by rw [hw]; rfl
+            by_cases hl : limit ≤ s.elapsed + 1
+            · have : stepClock c limit s .tick = { s with timedOut := true } := by
+                simp [stepClock, hnt, hph, hl]
+              rw [this]; exact ih _ hs' hw (Or.inl rfl)
+            · have : stepClock c limit s .tick = { s with elapsed := s.elapsed + 1 } := by
+                simp [stepClock, hnt, hph, hl]
+              rw [this]
+              refine ih _ hs' hw (Or.inr ⟨by simp only []; omega, ?_⟩)
+              simp only [ticksOf] at h ⊢; omega
+          | msg e =>
+            have hne := hs e List.mem_cons_self
+            have hinit : ¬ (e = Ev.init c ∧ s.w.phase = .waiting) := by
+              intro hh; apply hne; rw [hh.1]; rfl
+            have : stepClock c limit s (.msg e) = s := by
+              simp only [stepClock, hnt, hw, stepWait_forged c initW e hne]
+              cases s; simp_all
+            rw [this]
+            refine ih s hs' hw (Or.inr ⟨h.1, ?_⟩)
+            simpa [ticksOf] using h.2
+  exact key tr ⟨initW, 0, false⟩ hsil rfl (Or.inr ⟨by show 0 < limit; omega, by simpa using hlim⟩)
+
+example : (runClock (2 : Nat) 3 [.tick, .msg (.init 0), .tick, .msg (.init 1), .msg (.start 0 (some 5)), .tick]).timedOut = true ∧
+    (runClock (2 : Nat) 3 [.tick, .msg (.init 2), .tick, .tick]).timedOut = false ∧
+    (runClock (2 : Nat) 3 [.tick, .msg (.init 2), .tick, .tick]).w.readies = [2] := by decide
 
 /-- **C11-4 (unrecognised failure).** Without any typed error the session ends with that error: no retry, no wait. -/
 theorem unrecognised_failure_ends_session (e : Err α) (retryable : Bool) (hk : intended e = some .unknown) :
